@@ -63,21 +63,21 @@ Fixpoint group_add (g : list (Z * list try_item)) (k : Z) (t : try_item) : list 
   end.
 Definition group_tries (tries : list try_item) : list (Z * list try_item) :=
   fold_left (fun g t => group_add g (t_hoff t) t) tries [].
-(* the last handler with that offset wins (each match appends; value[1] is read) - offsets are distinct in a well-formed list;
-   a try item whose offset matches no handler raises IndexError in the code *)
+(* the first handler with that offset is used (every matching handler is appended to the group entry, value[1] is read) -
+   offsets are distinct in a well-formed list; a try item whose offset matches no handler raises IndexError in the code *)
+Definition exc_step (handlers : list handler) (kt : Z * try_item) (acc : result (list exc)) : result (list exc) :=
+  match acc with Err e => Err e | Ok acc =>
+    match find (fun h => h_off h =? fst kt) handlers with
+    | None => Err IndexError
+    | Some h =>
+        let t := snd kt in
+        Ok ({| e_start := t_start t * 2; e_end := t_start t * 2 + t_count t * 2 - 1;
+               e_handlers := map (fun p => (fst p, snd p * 2)) (h_typed h) ++
+                             match h_catch_all h with Some a => [(TY_THROWABLE, a * 2)] | None => [] end |} :: acc)
+    end
+  end.
 Definition determine_exception (tries : list try_item) (handlers : list handler) : result (list exc) :=
-  let flat := flat_map (fun g => map (fun t => (fst g, t)) (snd g)) (group_tries tries) in
-  fold_right (fun kt acc =>
-      match acc with Err e => Err e | Ok acc =>
-        match find (fun h => h_off h =? fst kt) handlers with
-        | None => Err IndexError
-        | Some h =>
-            let t := snd kt in
-            Ok ({| e_start := t_start t * 2; e_end := t_start t * 2 + t_count t * 2 - 1;
-                   e_handlers := map (fun p => (fst p, snd p * 2)) (h_typed h) ++
-                                 match h_catch_all h with Some a => [(TY_THROWABLE, a * 2)] | None => [] end |} :: acc)
-        end
-      end) (Ok []) flat.
+  fold_right (exc_step handlers) (Ok []) (flat_map (fun g => map (fun t => (fst g, t)) (snd g)) (group_tries tries)).
 
 (* ---- _create_basic_block ---- *)
 Record block := { b_start : Z; b_ins : list (Z * ins) }.               (* instructions with their offsets *)
